@@ -2,6 +2,7 @@
 
 from __future__ import annotations
 
+import os
 from typing import Callable
 
 from .core import Program, Report, finish
@@ -98,4 +99,16 @@ def run(pid: str, tier: str, t0: float) -> int:
             rule(prog, report)
         except AnalysisError as e:  # one rule's anchor trouble must not hide another rule's finding
             report.errors.append(str(e))
-    return finish(report, prog, tier, t0, spec["explanation"], ASSUME)
+    extra = None
+    if tier == "thorough" and not report.findings and not os.environ.get("PMVERIF_NO_EVIDENCE"):
+        from .selftest import run_selftest
+
+        st = run_selftest(pid)
+        extra = {"selftest": {k: v for k, v in st.items() if k != "details"}, "selftest_details": st["details"]}
+        report.count("selftest mutants fired", st["mutants_fired"])
+        report.count("selftest mutants total", st["mutants_total"])
+        report.count("selftest twins silent", st["twins_silent"])
+        report.count("selftest twins total", st["twins_total"])
+        for f in st["failures"]:
+            report.errors.append("self-test: " + f)
+    return finish(report, prog, tier, t0, spec["explanation"], ASSUME, extra)
